@@ -38,6 +38,7 @@ func main() {
 		fmt.Fprintln(os.Stderr, "usage: gmcheck <ID|all|list> [--tier quick|thorough] [--repo DIR] [--only RULE] [--no-evidence]")
 		os.Exit(2)
 	}
+	augmentExplain()
 	id := os.Args[1]
 	fs := flag.NewFlagSet("gmcheck", flag.ExitOnError)
 	tier := fs.String("tier", "", "quick or thorough (default: $VERIF_TIER or quick)")
